@@ -189,6 +189,59 @@ Qed.
 
 Definition keyhd (e : list P * list nat) : option P := hd_error (fst e).
 
+(* ================================================================== declarative specification *)
+Definition seteq (a b : list nat) : Prop := incl a b /\ incl b a.
+
+(* S is (as a set) the peptide set of some protein and no protein's peptide set is strictly larger *)
+Definition maximal (prots : list (P * list nat)) (S : list nat) : Prop :=
+  (exists p peps, In (p, peps) prots /\ seteq S peps) /\
+  forall q peps, In (q, peps) prots -> incl S peps -> incl peps S.
+
+(* the members of the group with peptide set S are exactly the proteins whose peptides lie in S *)
+Definition members_ok (prots : list (P * list nat)) (n : list P) (S : list nat) : Prop :=
+  forall x, In x n <-> exists peps, In (x, peps) prots /\ incl peps S.
+
+Record group_spec (prots : list (P * list nat)) (g : gr_groups P) : Prop := {
+  gs_maximal : forall n S, In (n, S) g -> maximal prots S;
+  gs_members : forall n S, In (n, S) g -> members_ok prots n S;
+  gs_founder : forall n S, In (n, S) g -> exists f, In f n /\ In (f, S) prots;
+  gs_listed_once : forall n S, In (n, S) g -> NoDup n;
+  gs_all_maximal : forall S, maximal prots S -> exists n S', In (n, S') g /\ seteq S' S;
+  gs_keys : NoDup (map fst g);
+  gs_anti : forall n S n' S', In (n, S) g -> In (n', S') g -> incl S S' -> n = n';
+  gs_cover : forall p peps, In (p, peps) prots -> exists n S, In (n, S) g /\ In p n }.
+
+(* the returned peptide dict: peptide -> the groups whose peptide set contains it *)
+Definition pmap_spec (g : gr_groups P) (pm : gr_pmap P) : Prop :=
+  forall pep, NoDup (lookup pep pm) /\
+              forall x, In x (lookup pep pm) <-> exists S, In (x, S) g /\ In pep S.
+
+Lemma group_spec_ext : forall prots prots' g,
+  (forall e, In e prots <-> In e prots') -> group_spec prots g -> group_spec prots' g.
+Proof.
+  intros prots prots' g Hext Hs.
+  assert (Hmax : forall S, maximal prots S <-> maximal prots' S).
+  { intros S. unfold maximal. split.
+    - intros [[p [peps [Hin Heq]]] Hm]. split.
+      + exists p, peps. split; [apply Hext; assumption|assumption].
+      + intros q pq Hq. apply Hm with q. apply Hext. assumption.
+    - intros [[p [peps [Hin Heq]]] Hm]. split.
+      + exists p, peps. split; [apply Hext; assumption|assumption].
+      + intros q pq Hq. apply Hm with q. apply Hext. assumption. }
+  constructor.
+  - intros n S Hin. apply Hmax. apply (gs_maximal _ _ Hs n S Hin).
+  - intros n S Hin x. rewrite (gs_members _ _ Hs n S Hin x). split.
+    + intros [peps [H1 H2]]. exists peps. split; [apply Hext; assumption|assumption].
+    + intros [peps [H1 H2]]. exists peps. split; [apply Hext; assumption|assumption].
+  - intros n S Hin. destruct (gs_founder _ _ Hs n S Hin) as [f [H1 H2]]. exists f.
+    split; [assumption|apply Hext; assumption].
+  - apply (gs_listed_once _ _ Hs).
+  - intros S HS. apply (gs_all_maximal _ _ Hs). apply Hmax. assumption.
+  - apply (gs_keys _ _ Hs).
+  - apply (gs_anti _ _ Hs).
+  - intros p peps Hin. apply (gs_cover _ _ Hs p peps). apply Hext. assumption.
+Qed.
+
 (* ================================================================== invariants *)
 Section Inv.
 Variable L : list (P * list nat).
@@ -725,6 +778,130 @@ Proof.
     + intros [[S [[] _]] | [p [peps [HL [Hx [Hpep _]]]]]]. exists p, peps. repeat split; assumption.
 Qed.
 
+Lemma ginv_spec : forall g pm, ginv L g pm -> group_spec L g /\ pmap_spec g pm.
+Proof.
+  intros g pm [Hc Hcomp Hcov Hinv Hnd].
+  assert (Hmem : forall n S x, In (n, S) g -> In x n -> exists peps, In (x, peps) L /\ incl peps S).
+  { intros n S x Hin Hx. destruct (c_members _ _ Hc n S x Hin Hx) as [_ H]. exact H. }
+  split.
+  - constructor.
+    + intros n S Hin. destruct (c_founder _ _ Hc n S Hin) as [f [ms [En HfL]]]. split.
+      * exists f, S. split; [assumption|split; apply incl_refl].
+      * intros q peps Hq Hsub.
+        destruct (Hcov q peps Hq) as [n' [S' [Hin' Hqn']]].
+        destruct (Hmem n' S' q Hin' Hqn') as [peps' [Hq' Hsub']].
+        assert (E : peps' = peps) by (eapply L_fun; eassumption). subst peps'.
+        assert (En' : n = n').
+        { apply (c_anti _ _ Hc n S n' S' Hin Hin'). intros a Ha. apply Hsub'. apply Hsub. assumption. }
+        subst n'. rewrite (core_key_fun _ g n S S' Hc Hin Hin'). assumption.
+    + intros n S Hin x. split.
+      * intros Hx. apply (Hmem n S x Hin Hx).
+      * intros [peps [Hx Hsub]]. apply (Hcomp n S x peps); assumption.
+    + intros n S Hin. destruct (c_founder _ _ Hc n S Hin) as [f [ms [En HfL]]]. exists f.
+      split; [subst n; left; reflexivity|assumption].
+    + apply (c_nodup _ _ Hc).
+    + intros S [[p [peps [Hp [HS1 HS2]]]] Hm].
+      destruct (Hcov p peps Hp) as [n [S' [Hin Hpn]]].
+      destruct (Hmem n S' p Hin Hpn) as [peps' [Hp' Hsub']].
+      assert (E : peps' = peps) by (eapply L_fun; eassumption). subst peps'.
+      destruct (c_founder _ _ Hc n S' Hin) as [f [ms [En HfL]]].
+      exists n, S'. split; [assumption|]. split.
+      * apply (Hm f S' HfL). intros a Ha. apply Hsub'. apply HS1. assumption.
+      * intros a Ha. apply Hsub'. apply HS1. assumption.
+    + pose proof (c_heads _ _ Hc) as H.
+      assert (E : map keyhd g = map (@hd_error P) (map fst g)) by (rewrite map_map; reflexivity).
+      rewrite E in H. apply NoDup_map_inv in H. exact H.
+    + apply (c_anti _ _ Hc).
+    + exact Hcov.
+  - intros pep. split; [apply Hnd|]. intros x. rewrite (Hinv pep x). split.
+    + intros [H | [p [peps [HL [Hx [Hpep Hcl]]]]]]; [exact H|].
+      exfalso. destruct (Hcov p peps HL) as [n [S [Hin Hpn]]].
+      destruct (Hmem n S p Hin Hpn) as [peps' [Hp' Hsub']].
+      assert (E : peps' = peps) by (eapply L_fun; eassumption). subst peps'.
+      apply (Hcl n S Hin Hpn). apply Hsub'. assumption.
+    + intros H. left. exact H.
+Qed.
+
 End Inv.
+
+(* ================================================================== sorting *)
+Lemma ins_desc_perm : forall x l, Permutation (x :: l) (gr_ins_desc P x l).
+Proof.
+  intros x l. induction l as [|y t IH]; simpl; [apply Permutation_refl|].
+  destruct (Nat.leb (length (snd y)) (length (snd x))); [apply Permutation_refl|].
+  eapply perm_trans; [apply perm_swap|apply perm_skip; exact IH].
+Qed.
+
+Lemma sort_desc_perm : forall l, Permutation l (gr_sort_desc P l).
+Proof.
+  induction l as [|x l IH]; simpl; [apply Permutation_refl|].
+  eapply perm_trans; [apply perm_skip; exact IH|apply ins_desc_perm].
+Qed.
+
+Lemma ins_desc_sorted : forall x l, desc_sorted l -> desc_sorted (gr_ins_desc P x l).
+Proof.
+  intros x l. induction l as [|y t IH]; intros Hs; simpl.
+  - split; [intros y []|exact I].
+  - destruct Hs as [Hy Hs]. destruct (Nat.leb (length (snd y)) (length (snd x))) eqn:E.
+    + apply Nat.leb_le in E. split; [|split; assumption].
+      intros z [Hz|Hz]; [subst; assumption|]. specialize (Hy z Hz). lia.
+    + apply Nat.leb_gt in E. split; [|apply IH; assumption].
+      intros z Hz. apply (Permutation_in _ (Permutation_sym (ins_desc_perm x t))) in Hz.
+      destruct Hz as [Hz|Hz]; [subst; lia|apply Hy; assumption].
+Qed.
+
+Lemma sort_desc_sorted : forall l, desc_sorted (gr_sort_desc P l).
+Proof.
+  induction l as [|x l IH]; simpl; [exact I|apply ins_desc_sorted; assumption].
+Qed.
+
+Lemma ins_asc_perm : forall x l, Permutation (x :: l) (gr_ins_asc P x l).
+Proof.
+  intros x l. induction l as [|y t IH]; simpl; [apply Permutation_refl|].
+  destruct (Nat.leb (length (snd x)) (length (snd y))); [apply Permutation_refl|].
+  eapply perm_trans; [apply perm_swap|apply perm_skip; exact IH].
+Qed.
+
+Lemma sort_asc_perm : forall l, Permutation l (gr_sort_asc P l).
+Proof.
+  induction l as [|x l IH]; simpl; [apply Permutation_refl|].
+  eapply perm_trans; [apply perm_skip; exact IH|apply ins_asc_perm].
+Qed.
+
+(* ================================================================== _group_proteins *)
+Definition wf_prots (prots : list (P * list nat)) : Prop :=
+  NoDup (map fst prots) /\ forall p peps, In (p, peps) prots -> NoDup peps /\ peps <> [].
+
+Definition perm_oracle (pi : P -> list (list P) -> list (list P)) : Prop :=
+  forall p l, Permutation l (pi p l).
+
+Theorem group_ok : forall pi prots pm0,
+  perm_oracle pi -> wf_prots prots -> pm0_ok prots pm0 ->
+  exists g pm, gr_group P peqb pi prots pm0 = Ok (g, pm) /\ group_spec prots g /\ pmap_spec g pm.
+Proof.
+  intros pi prots pm0 Hpi [Hnames Hpeps] [H0 Hnd0].
+  set (L := gr_sort_desc P prots).
+  assert (Hperm : Permutation prots L) by apply sort_desc_perm.
+  assert (Hext : forall e, In e L <-> In e prots).
+  { intros e. split; intros H.
+    - apply (Permutation_in _ (Permutation_sym Hperm)). assumption.
+    - apply (Permutation_in _ Hperm). assumption. }
+  assert (HLn : NoDup (map fst L)).
+  { eapply Permutation_NoDup; [apply Permutation_map; exact Hperm|assumption]. }
+  assert (HLp : forall p peps, In (p, peps) L -> NoDup peps).
+  { intros p peps Hin. apply (Hpeps p peps). apply Hext. assumption. }
+  assert (Hpm0 : pm0_ok L pm0).
+  { split; [|assumption]. intros pep x. rewrite (H0 pep x). split.
+    - intros [p [peps [H1 H2]]]. exists p, peps. split; [apply Hext; assumption|assumption].
+    - intros [p [peps [H1 H2]]]. exists p, peps. split; [apply Hext; assumption|assumption]. }
+  destruct (loop_ok L HLn HLp pi Hpi L [] [] pm0) as [g [pm [Hrun Hgi]]].
+  - reflexivity.
+  - apply sort_desc_sorted.
+  - intros p peps Hin. apply (Hpeps p peps). apply Hext. assumption.
+  - apply ginv_init. assumption.
+  - exists g, pm. split; [exact Hrun|].
+    destruct (ginv_spec L HLn g pm Hgi) as [Hs Hp].
+    split; [|assumption]. apply (group_spec_ext L prots g Hext Hs).
+Qed.
 
 End GroupingProofs.
